@@ -764,8 +764,8 @@ def monitor_prio1(kind):
                     fails.append("Err() yielded error code %d in normal mode" % tr.err)
             elif kind == "C07":
                 fails.append("GracefulStop did not complete although every input was closed and emptied and every item released")
-                v = view[-1]
-                if not v["uncertain"] and v["reg_after"]:
+                v = view[-1] if view else None
+                if v is not None and not v["uncertain"] and v["reg_after"]:
                     psr = sorted(v["reg_after"], reverse=True)
                     shr = ref_shares(psr, 0 if m["divider"] == "Fair" else 1, H)
                     if any(shr.get(p, 0) == 0 for p in psr):
